@@ -32,9 +32,11 @@ def make_pdu(rng, kind, fill=None):
     if fam == "DH":
         # the 5-bit pad octet count is split over two places of the header: all 32 values are walked through (per format and per
         # process), not drawn - 16 is the value at which the split matters
+        # (only inside this check: other users of make_pdu - the purity catalogue - need a function of the generator alone)
         _PAD[sub] = _PAD.get(sub, -1) + 1
+        pad = ((16 + _PAD[sub]) % 32 if _PAD.get("walk") else rng.randrange(32)) if sub in "CU" else 0
         return gen.data_header(rng, sub, btf=rng.randrange(0, 64 if sub == "S" else 128), a=sub != "R" and bool(rng.getrandbits(1)),
-                               llid_source=rng.randrange(1 << 24), pad=(16 + _PAD[sub]) % 32 if sub in "CU" else 0), DT.DataHeader, None
+                               llid_source=rng.randrange(1 << 24), pad=pad), DT.DataHeader, None
     if fam in ("VLC", "TLC") and sub:
         return gen.full_lc_other(rng, sub), (DT.VoiceLCHeader if fam == "VLC" else DT.TerminatorWithLC), None
     if fam == "VLC":
@@ -226,6 +228,7 @@ def table_rows(rng):
 
 
 def run(ctx):
+    _PAD["walk"] = True          # before the worker processes are forked
     ctx.rule = ("26 payload kinds (CSBK, five data header formats, voice LC header and terminator with voice-user / GPS / talker-alias link controls, PI header, 12 rate-block variants) x 16 colour "
                 "codes x 4 data sync patterns + random combinations are assembled like TransmissionGenerator does, serialised, parsed, "
                 "re-serialised; voice bursts around the 4 voice syncs and around EMB for all (colour, PI, LCSS) with random 32 embedded bits; "
